@@ -169,9 +169,10 @@ PROPS = {
                 "thorough: every position) x events between the pieces {none, datagram, uni stream, bidi stream, frame on the "
                 "other critical stream} x both sides x both runtimes; the expected outcome is the worker model on the whole "
                 "bytes; non-trivial = distinct line with cut > 0",
-        "extracted_keys": ["FRAME_MAX_PARSE_PAYLOAD", "ERROR_CODES", "CAPSULE_CLOSE_WEBTRANSPORT_SESSION"],
+        "extracted_keys": ["FRAME_MAX_PARSE_PAYLOAD", "ERROR_CODES", "CAPSULE_CLOSE_WEBTRANSPORT_SESSION",
+                           "CONTROL_READ_PERSISTS_SETTINGS", "CONTROL_READ_PERSISTS_CONNECT"],
         "trusted": ["tokio::select! drops the futures of the branches that did not complete (language semantics)",
-                    "which branch completes first on a given run is the runtime's choice: the model says where a tear CAN occur"],
+                    "a boxed future stored in a struct keeps its state when the future that was polling it is dropped"],
         "assumptions": ["pieces are separated by 80 ms on loopback, so each piece is one delivery"],
     },
     "C07": {
@@ -270,10 +271,10 @@ LEVEL_TEXT = {
            "path-with-query, extras preserved, reserved names never overridden, verdict a function of the status alone "
            "(all 500 codes), same session id both sides; wire form tied by correspondence (partial until the QPACK round trip is a theorem)",
     "C05": "Lean 4 theorems over the select-loop model: inside one iteration a reader equals the one-shot parse for every "
-           "chunking (C15), so segmentation alone is harmless (segmentation_alone_is_harmless), and for every piece list "
-           "in which no reader is dropped while holding part of a frame the outcome equals that of the whole bytes "
-           "(C05_partial); the full statement is FALSE of the code (C05_full_false, concrete witness) - known finding D5; "
-           "tied by the e2e cut x event matrix where the model predicts the whole outcome and exactly which cuts can tear",
+           "chunking (C15, frames and typestates), and for EVERY list of pieces with or without another event after each "
+           "piece the session stream and the control stream are interpreted as the unsegmented bytes (C05_full), given the "
+           "structural fact extracted from the source on every run that a frame read in progress is stored outside the "
+           "future the select loop drops; tied by the codec cut matrix and the e2e cut x event matrix",
     "C07": "Lean 4 theorems over the hand-off pipeline model, for every schedule and every set of streams stalled inside "
            "their preamble: each internal step decreases a measure (fair completions terminate) and a state where nothing "
            "can happen has no healthy stream undelivered (C07_full), given the structural fact extracted from the source on "
@@ -312,9 +313,9 @@ LEVEL_NOTE = {
     "C20": "OS / quinn apply the settings (partial); live half via e2e.",
     "C01": "Trusted as C14 plus quinn's stream transport (partial: loss/reordering inside quinn not exhibited).",
     "C02": "Trusted as C14 plus url, httlib-huffman; partial as stated.",
-    "C05": "Trusted as C14. Partial: the full property does not hold of the code (open known finding D5, not repaired); "
-           "what is proved is the tear-free fragment plus the negation witness. Which branch the runtime polls first is not "
-           "modelled, only whether a tear is possible.",
+    "C05": "Trusted as C14 plus the semantics of tokio::select! (losing branches are dropped) and of a stored boxed future "
+           "(polling it again resumes it). Which branch the runtime polls first is not modelled; with the reads persisted it "
+           "no longer matters.",
     "C07": "Trusted as C14 plus tokio's mpsc/scheduler and quinn's accept order (modelled as the pipeline's steps). "
            "Partial: the model has no packets, so loss/delay inside quinn and flow-control starvation are not exhibited; "
            "the e2e runs cover them only as far as loopback does.",
